@@ -1796,6 +1796,6 @@ func init() {
 		"row order and the key label of a merged group are free (any operand's label is accepted); percent pointers and extension maps shared between a result and its operands are not written through",
 		"the payment tax summary is compared with the line summaries of the same output, so recalculation of a line summary itself (C02/C04) is not judged here",
 	)
-	vh.Rapid("totals", 40_000, 2_400_000, genCase, judgeTotals)
-	vh.Rapid("payments", 40_000, 1_600_000, genPayment, judgePayment)
+	vh.Rapid("totals", 30_000, 2_400_000, genCase, judgeTotals)
+	vh.Rapid("payments", 30_000, 1_600_000, genPayment, judgePayment)
 }
